@@ -31,6 +31,7 @@ pub mod common {
     }
     pub mod serialize {
 //@include frag/common_serialize_basic.tpl
+//@include frag/common_serialize_writers.tpl
     }
     pub mod phys {
 //@include frag/phys_shim.tpl
@@ -57,6 +58,9 @@ pub mod serial {
     }
 }
 pub mod server {
+    pub mod response {
+//@include frag/server_response.tpl
+    }
     pub mod types {
 //@include frag/server_types.tpl
     }
